@@ -73,6 +73,7 @@ C13 quantify over every carrier satisfying the IEEE facts they need. -/
 class FloatOps (F : Type) where
   zero : F
   half : F                      -- 0.5
+  one : F                       -- 1.0
   mul : F → F → F
   sub : F → F → F
   div : F → F → F
@@ -83,6 +84,7 @@ class FloatOps (F : Type) where
 instance : FloatOps Float where
   zero := 0.0
   half := 0.5
+  one := 1.0
   mul := (· * ·)
   sub := (· - ·)
   div := (· / ·)
@@ -93,14 +95,16 @@ instance : FloatOps Float where
 structure RangeG (F : Type) where
   min : F
   max : F
-  halfRange : F
+  scale : F
+  range : F
 
 open FloatOps in
-/-- `Range::from_min_max`: halved values avoid overflow; reversed, empty, NaN and infinite ranges
-    are degenerate (everything normalises to 0) -/
+/-- `Range::from_min_max`: the values of very big ranges are halved to avoid overflow; reversed,
+    empty, NaN and infinite ranges are degenerate (everything normalises to 0) -/
 def RangeG.fromMinMax {F} [FloatOps F] (min max : F) : RangeG F :=
-  let h := sub (mul max half) (mul min half)
-  if lt zero h && isFinite h then ⟨min, max, h⟩ else ⟨zero, zero, zero⟩
+  let scale := if isFinite (sub max min) then one else half
+  let range := sub (mul max scale) (mul min scale)
+  if lt zero range && isFinite range then ⟨min, max, scale, range⟩ else ⟨zero, zero, one, zero⟩
 
 open FloatOps in
 /-- Rust `f64::clamp` for `min ≤ max`, non-NaN bounds -/
@@ -108,11 +112,11 @@ def fclampG {F} [FloatOps F] (v lo hi : F) : F := if lt v lo then lo else if lt 
 
 open FloatOps in
 def RangeG.normalizeF {F} [FloatOps F] (r : RangeG F) (v : F) : F :=
-  div (sub (mul (fclampG v r.min r.max) half) (mul r.min half)) r.halfRange
+  div (sub (mul (fclampG v r.min r.max) r.scale) (mul r.min r.scale)) r.range
 
 open FloatOps in
 def RangeG.normalize {F} [FloatOps F] (r : RangeG F) (v : F) : UInt32 :=
-  if !(lt zero r.halfRange) then 0
+  if !(lt zero r.range) then 0
   else toF32Bits (r.normalizeF v)
 
 abbrev Range := RangeG Float
